@@ -630,6 +630,10 @@ class Interp:
             if node.id in env:
                 return env[node.id]
             env = env.get("__parent__") if isinstance(env, dict) else None
+        fn = getattr(fr, "fn_node", None)
+        if fn is not None and not getattr(fr, "env_havoc", False) and node.id in _local_names(fn):
+            # Python scoping: a name assigned anywhere in the function is local; reading it unbound raises
+            raise RaiseEx("UnboundLocalError", f"local variable '{node.id}' read before assignment")
         return self.resolve_global(fr.module, node.id)
 
     def e_Tuple(self, node):
@@ -1056,6 +1060,7 @@ class Interp:
         env = self.bind_args(f.node, list(args), dict(kwargs), f.module)
         short = f.qual.split(":")[1]
         fr = Frame(f.module, env, short, f.cls)
+        fr.fn_node = f.node
         self.stack.append(fr)
         self.call_depth += 1
         if self.call_depth > 60:
@@ -1085,6 +1090,46 @@ class Interp:
             return r.value
         finally:
             self.stack.pop()
+
+
+_LOCALS_CACHE = {}
+
+
+def _local_names(fn):
+    """names that Python treats as local variables of the function `fn` (FunctionDef): parameters and every name bound
+    in its own body (nested functions / lambdas / comprehensions / classes have their own scope; global/nonlocal excluded)"""
+    key = id(fn)
+    if key in _LOCALS_CACHE:
+        return _LOCALS_CACHE[key][1]
+    out, excluded = set(), set()
+    if not isinstance(fn, ast.FunctionDef):
+        _LOCALS_CACHE[key] = (fn, out)
+        return out
+    a = fn.args
+    for p in a.posonlyargs + a.args + a.kwonlyargs + ([a.vararg] if a.vararg else []) + ([a.kwarg] if a.kwarg else []):
+        out.add(p.arg)
+    todo = list(fn.body)
+    while todo:
+        n = todo.pop()
+        if isinstance(n, (ast.FunctionDef, ast.AsyncFunctionDef, ast.ClassDef)):
+            out.add(n.name)
+            continue
+        if isinstance(n, (ast.Lambda, ast.ListComp, ast.SetComp, ast.DictComp, ast.GeneratorExp)):
+            continue
+        if isinstance(n, (ast.Global, ast.Nonlocal)):
+            excluded.update(n.names)
+            continue
+        if isinstance(n, ast.Name) and isinstance(n.ctx, (ast.Store, ast.Del)):
+            out.add(n.id)
+        elif isinstance(n, (ast.Import, ast.ImportFrom)):
+            for al in n.names:
+                out.add((al.asname or al.name).split(".")[0])
+        elif isinstance(n, ast.ExceptHandler) and n.name:
+            out.add(n.name)
+        todo.extend(ast.iter_child_nodes(n))
+    out -= excluded
+    _LOCALS_CACHE[key] = (fn, out)  # keep fn alive so that id() stays unique
+    return out
 
 
 def _load(target):
